@@ -18,7 +18,12 @@ Property clause → theorem
       Begin/EndBlocker OUTSIDE every ApplyFuncIfNoError closure is on the reviewed list below — `pureHelpers`,
       `storeAccess`, `expanded`, `opsTotal` (each with its justification; where the justification is a theorem it
       is stated: `slice_in_bounds`, `sweep_bounds_in_range`, `borrow_sweep_total`), `reviewedUnproved`
-      (read and exercised, not proved — this is why the level is *partial*) or on one of the two defect lists:
+      (the IBC oracle request: read and exercised, not proved — one reason why the level is *partial*) or on one of the three
+      defect lists:
+  - **D-C15-1** (OPEN) `kickoffDC151`: the surplus / debt kick-off of `liquidationsV2.BeginBlocker` is unwrapped; it cannot
+    panic but it moves the lot out of the collector BEFORE it knows an English auction can start and returns at the first
+    failing entry: `kickoff_leaks_counterexample`, `kickoff_repeats` (n blocks ⇒ n lots), against
+    `kickoff_complete_if_english_on`; the repair is `kickoff_wrapped_is_atomic`. Witness first in the harness run (`kick.*`).
   - **D3** `conditionalD3`: `totalVaults[start:end]` in both vault sweeps is total only if the stored vault counter
     does not exceed the capacity of the stored vault list — `sweep_total_if_counter_le_cap`; the counter is NOT
     kept equal to the list on chain (double increment, `x/auction/keeper/dutch.go:554-559` +
@@ -29,7 +34,14 @@ Property clause → theorem
     `unwrapped_loop_leaks_counterexample` (model of the old `x/liquidationsV2/keeper/liquidate.go:248-254`), against
     `unwrapped_loop_ok_if_no_failure`. The table obligations now demand the wrapper: taking it away again fails
     `unwrapped_calls_reviewed`, `units_of_work_wrapped` and `table_pins`, and the harness reports the leak (`uloop` lines).
-* every unit of work the property names sits in its own wrapper → `units_of_work_wrapped` (table).
+* every unit of work the property names sits in its own wrapper → `units_of_work_wrapped` (table): for every per-item
+  unit the wrapper call is INSIDE the item loop (`loopOver` = the innermost loop statement enclosing the call,
+  `innerLoops` = the loops written inside the closure) — `wrapper_sites_and_their_loops` pins all 17 sites with their loops.
+  What that buys, for ALL patterns of failing items: `per_item_loop_processes_ok_items` (exactly the items that do not fail
+  are processed), `blocker_splits_per_item` (the blocker over all items = the one-item blockers in sequence — the relation
+  the harness uses to find out, from the real code alone, which items are visible after a fault); what is lost when the
+  wrapper and the loop swap places (seed s99, `x/liquidity/abci.go:18-19`): `one_wrapper_all_or_nothing`,
+  `one_wrapper_for_all_counterexample`.
 * "… or reports failure at any point": the wrapper only sees what the closure returns → `wrapped_units_propagate_errors`
   (every error produced inside a closure is returned, up to the reviewed list `swallowReviewed`),
   `units_use_their_cache_context`, `per_item_units_can_report_failure` (table).
@@ -183,6 +195,131 @@ theorem unwrapped_loop_ok_if_no_failure {σ : Type} (items : List (Raw σ)) (h :
     simp only at hf
     subst hf
     simp [runUnwrappedLoop, hfs, ih' s']
+
+/-! ## 2b. Per-item granularity: the wrapper INSIDE the item loop -/
+
+/-- **Every item under its own wrapper**: whatever the pattern of failing items (`oks`), exactly the items that do not
+fail are processed, in order — a fault in item k leaves every item ≠ k processed. -/
+theorem per_item_loop_processes_ok_items (oks : List Bool) (i : Nat) (s : List Nat) :
+    (runUnits (itemUnits oks i) s).1 = s ++ okItems oks i := by
+  induction oks generalizing i s with
+  | nil => simp [itemUnits, runUnits, okItems]
+  | cons ok rest ih =>
+    cases ok
+    · simp [itemUnits, runUnits, applyIfNoError, itemUnit, okItems, ih]
+    · simp [itemUnits, runUnits, applyIfNoError, itemUnit, okItems, ih]
+
+example : (runUnits (itemUnits [true, false, true] 1) []).1 = [1, 3] := by
+  simpa [okItems] using per_item_loop_processes_ok_items [true, false, true] 1 []
+
+/-- … and every item's flag says whether it was processed -/
+theorem per_item_loop_flags (oks : List Bool) (i : Nat) (s : List Nat) :
+    (runUnits (itemUnits oks i) s).2 = oks := by
+  induction oks generalizing i s with
+  | nil => simp [itemUnits, runUnits]
+  | cons ok rest ih =>
+    cases ok
+    · simp [itemUnits, runUnits, applyIfNoError, itemUnit, ih]
+    · simp [itemUnits, runUnits, applyIfNoError, itemUnit, ih]
+
+/-- **The blocker over all items is the one-item blockers in sequence** — for arbitrary units. This is the relation by
+which the harness computes, from the REAL blocker run on one-app lists, what the state must be after a fault in app k. -/
+theorem blocker_splits_per_item {σ : Type} (us : List (σ → Except Fail σ)) (s : σ) :
+    (runUnits us s).1 = us.foldl (fun t f => (runUnits [f] t).1) s := by
+  induction us generalizing s with
+  | nil => rfl
+  | cons f fs ih => simp [runUnits, ih]
+
+example : (runUnits [fun n => .ok (n + 1), fun _ => .error Fail.panic, fun n => .ok (n * 10)] (1 : Nat)).1 =
+    [fun n => .ok (n + 1), fun _ => .error Fail.panic, fun n => .ok (n * 10)].foldl (fun t f => (runUnits [f] t).1) 1 :=
+  blocker_splits_per_item _ 1
+
+theorem seqAll_items (oks : List Bool) (i : Nat) (s : List Nat) :
+    seqAll (itemUnits oks i) s = if oks.all id = true then .ok (s ++ okItems oks i) else .error .err := by
+  induction oks generalizing i s with
+  | nil => simp [itemUnits, seqAll, okItems]
+  | cons ok rest ih =>
+    cases ok
+    · simp [itemUnits, seqAll, itemUnit]
+    · simp only [itemUnits, seqAll, itemUnit, if_true, ih, okItems, List.all_cons, id, Bool.true_and]
+      split <;> simp
+
+/-- **One wrapper around the whole loop is all-or-nothing for the LIST**: if any item fails, no item is processed — the
+items before the failing one are rolled back, the items after it are not started. -/
+theorem one_wrapper_all_or_nothing (oks : List Bool) (i : Nat) (s : List Nat) :
+    runAsOne (itemUnits oks i) s = if oks.all id = true then (s ++ okItems oks i, true) else (s, false) := by
+  unfold runAsOne applyIfNoError
+  rw [seqAll_items]
+  by_cases h : oks.all id = true <;> simp [h]
+
+example : runAsOne (itemUnits [true, true] 5) [4] = ([4, 5, 6], true) := by
+  simpa [okItems] using one_wrapper_all_or_nothing [true, true] 5 [4]
+example : (runUnits (itemUnits [false, true] 1) []).2 = [false, true] := per_item_loop_flags _ 1 []
+
+/-- seed s99 in the model: three apps, the second one poisoned. Per-app wrappers: apps 1 and 3 processed. One wrapper for
+all: nothing processed. -/
+theorem one_wrapper_for_all_counterexample :
+    runUnits (itemUnits [true, false, true] 1) [] = ([1, 3], [true, false, true]) ∧
+    runAsOne (itemUnits [true, false, true] 1) [] = ([], false) := by
+  constructor <;> rfl
+
+/-! ## 2c. The surplus kick-off of the second generation (unwrapped; finding D-C15-1) -/
+
+/-- if English auctions are activated the kick-off does all of its four effects -/
+theorem kickoff_complete_if_english_on (lot : Int) (s : Kick) :
+    surplusKickRaw lot true s =
+      ({ collector := s.collector - lot, parked := s.parked + lot, netFees := s.netFees - lot,
+         lockedVaults := s.lockedVaults + 1, auctions := s.auctions + 1, active := true }, none) := rfl
+
+/-- **D-C15-1 — the kick-off is not all-or-nothing and stops the loop** (two due entries, the first app without English
+auctions): the first entry's lot has left the collector and the record, no locked vault, no auction, the entry is not
+marked; the step reports failure; the second entry is never started (`2` would be the count had both been started). -/
+theorem kickoff_leaks_counterexample :
+    runUnwrappedLoop [surplusKickRaw 200000 false, surplusKickRaw 200000 true]
+        { collector := 11000000, parked := 0, netFees := 11000000, lockedVaults := 0, auctions := 0, active := false } =
+      ({ collector := 10800000, parked := 200000, netFees := 10800000, lockedVaults := 0, auctions := 0, active := false },
+       some Fail.err, 1) := rfl
+
+/-- … and because nothing marks the entry, **every block takes another lot** until the record falls below threshold + lot:
+for every number of blocks `n` during which the entry stays due the collector is `n` lots short, with no auction. -/
+theorem kickoff_repeats (threshold lot : Int) (n : Nat) (s : Kick) (hact : s.active = false)
+    (hdue : s.netFees - (n : Int) * lot ≥ threshold) (hlot : 0 ≤ lot) :
+    kickBlocks threshold lot n s =
+      { s with collector := s.collector - n * lot, parked := s.parked + n * lot, netFees := s.netFees - n * lot } := by
+  induction n generalizing s with
+  | zero => simp [kickBlocks]
+  | succ n ih =>
+    have hd : kickDue s threshold lot = true := by
+      simp only [kickDue, hact, Bool.not_false, Bool.true_and, decide_eq_true_eq]
+      have : ((n + 1 : Nat) : Int) * lot = n * lot + lot := by rw [Int.natCast_succ, Int.add_mul, Int.one_mul]
+      have h2 : 0 ≤ (n : Int) * lot := Int.mul_nonneg (Int.natCast_nonneg n) hlot
+      omega
+    simp only [kickBlocks, hd, if_true]
+    have hs1 : (surplusKickRaw lot false s).1 =
+        { s with collector := s.collector - lot, parked := s.parked + lot, netFees := s.netFees - lot } := rfl
+    rw [hs1, ih]
+    · have : ((n + 1 : Nat) : Int) * lot = n * lot + lot := by rw [Int.natCast_succ, Int.add_mul, Int.one_mul]
+      simp only [this]
+      congr 1 <;> omega
+    · exact hact
+    · have : ((n + 1 : Nat) : Int) * lot = n * lot + lot := by rw [Int.natCast_succ, Int.add_mul, Int.one_mul]
+      simp only
+      omega
+
+example : kickBlocks 10200000 200000 3 { collector := 11000000, parked := 0, netFees := 11000000, lockedVaults := 0, auctions := 0, active := false } =
+    { collector := 10400000, parked := 600000, netFees := 10400000, lockedVaults := 0, auctions := 0, active := false } := by
+  decide
+
+/-- the repair: the same step under the wrapper of `types/utils.go` leaves nothing behind, and (as a `runUnits` loop) the
+entry behind it is processed -/
+theorem kickoff_wrapped_is_atomic (lot : Int) (s : Kick) :
+    applyShaped Comdex.Gen.Hooks.wrapper (surplusKickRaw lot false) s = (s, false, false) :=
+  source_wrapper_atomic _ s _ .err rfl
+
+example :
+    (runUnits [(surplusKickRaw 200000 false).toExcept, (surplusKickRaw 200000 true).toExcept]
+        { collector := 11000000, parked := 0, netFees := 11000000, lockedVaults := 0, auctions := 0, active := false }) =
+      ({ collector := 10800000, parked := 200000, netFees := 10800000, lockedVaults := 1, auctions := 1, active := true }, [false, true]) := rfl
 
 /-! ## 3. The sweep prelude (`GetSliceStartEndForLiquidations`, `list[start:end]`) -/
 
@@ -402,18 +539,27 @@ def conditionalD3 : List (String × String × String) := [
   ("liquidationsV2.BeginBlocker", "LiquidateVaults", "slice totalVaults[start:end]")
 ]
 
-/-- read, judged panic-free for states the keepers can produce, exercised by the environment-fault runs — NOT proved:
-`sdk.Int`/`sdk.Dec` arithmetic on stored collector thresholds (panics only beyond 256 bits), coin construction
-from stored asset denoms, the surplus/debt kick-off (returns its errors to `Liquidate`, which the blocker logs),
-the IBC oracle request (`SendPacket` returns an error, `obi.MustEncode` of a fixed struct type). -/
-def reviewedUnproved : List (String × String × String) := [
+/-- **D-C15-1** (OPEN): the surplus / debt kick-off of the second generation runs outside every wrapper. No panic is
+reachable (256-bit `sdk.Int` arithmetic on governance-set thresholds; `DebtTokenAmount` / `SurplusTokenAmount` return empty
+coins only for a collector asset that does not exist, which `WasmSetCollectorLookupTable` refuses), but the step is NOT
+all-or-nothing and a failing entry stops the loop: `surplusKickRaw`, `kickoff_leaks_counterexample`, `kickoff_repeats`;
+witness replayed first in the harness run (`kick.*`), monitors `kickoff_atomic`, `kickoff_remaining`. With the repair
+(`kickoff_wrapped_is_atomic`) these entries leave the unwrapped part of the table. -/
+def kickoffDC151 : List (String × String × String) := [
   ("liquidationsV2.BeginBlocker", "CheckStatsForSurplusAndDebt", "collector.DebtThreshold.Sub"),
   ("liquidationsV2.BeginBlocker", "CheckStatsForSurplusAndDebt", "collector.SurplusThreshold.Add"),
   ("liquidationsV2.BeginBlocker", "CheckStatsForSurplusAndDebt", "netFeeCollectedData.NetFeesCollected.LTE"),
   ("liquidationsV2.BeginBlocker", "CheckStatsForSurplusAndDebt", "netFeeCollectedData.NetFeesCollected.GTE"),
   ("liquidationsV2.BeginBlocker", "CheckStatsForSurplusAndDebt", "k.DebtTokenAmount"),
   ("liquidationsV2.BeginBlocker", "CheckStatsForSurplusAndDebt", "k.SurplusTokenAmount"),
-  ("liquidationsV2.BeginBlocker", "CheckStatsForSurplusAndDebt", "k.CreateLockedVault"),
+  ("liquidationsV2.BeginBlocker", "CheckStatsForSurplusAndDebt", "k.CreateLockedVault")
+]
+
+/-- read, judged panic-free, exercised by the feed histories over a real IBC channel — NOT proved (the IBC keeper is outside
+the model): `obi.MustEncode` of the fixed struct type `FetchPriceCallData` (a panic would be a static type error of the
+encoder, independent of state), `SendPacket` (returns an error, which `FetchPrice` turns into `nil, nil` before any write of
+its own, `x/bandoracle/keeper/oracle.go:102-112`). -/
+def reviewedUnproved : List (String × String × String) := [
   ("bandoracle.BeginBlocker", "FetchPrice", "obi.MustEncode"),
   ("bandoracle.BeginBlocker", "FetchPrice", "k.channelKeeper.SendPacket")
 ]
@@ -422,7 +568,7 @@ def key (e : Entry) : String × String × String := (e.blocker, e.inFn, e.callee
 
 def reviewed (e : Entry) : Bool :=
   pureHelpers.contains e.callee || storeAccess.contains (key e) || expanded.contains (key e) || opsTotal.contains (key e) ||
-  conditionalD3.contains (key e) || reviewedUnproved.contains (key e)
+  conditionalD3.contains (key e) || kickoffDC151.contains (key e) || reviewedUnproved.contains (key e)
 
 set_option maxRecDepth 200000 in
 /-- **Table obligation**: every call and panicking operator outside every wrapper is on the reviewed list. -/
@@ -438,22 +584,62 @@ theorem unwrapped_is_the_unwrapped_part :
 def hasUnit (b fn : String) (loop : Bool) (nest : Nat) : Bool :=
   units.any fun u => u.blocker == b && u.inFn == fn && u.loop == loop && u.nest == nest
 
-/-- **Every unit of work the property names sits in its own wrapper.** -/
+/-- a per-item unit: a wrapper call in function `fn` whose innermost enclosing loop statement is `over` (the ITEM loop —
+the wrapper is inside it), at nesting depth `nest`, the closure itself containing exactly the loops `inner` (loops over
+the parts of ONE item; a loop over the items inside the closure would be one wrapper for all items) -/
+def perItemUnit (b fn over : String) (nest : Nat) (inner : List String) : Bool :=
+  units.any fun u => u.blocker == b && u.inFn == fn && u.loop && u.loopOver == over && u.nest == nest && u.innerLoops == inner
+
+/-- a hook that is one unit as a whole: a wrapper call at the top of the blocker, in no loop -/
+def wholeHookUnit (b : String) (inner : List String) : Bool :=
+  units.any fun u => u.blocker == b && u.inFn == "BeginBlocker" && !u.loop && u.loopOver == "" && u.nest == 1 && u.innerLoops == inner
+
+/-- **Every unit of work the property names sits in its own wrapper, and the wrapper is inside the loop over the items.** -/
 theorem units_of_work_wrapped :
-    hasUnit "liquidation.BeginBlocker" "LiquidateVaults" true 1 = true ∧        -- one vault liquidation (gen 1)
-    hasUnit "liquidation.BeginBlocker" "LiquidateBorrows" true 1 = true ∧       -- one borrow liquidation (gen 1)
-    hasUnit "liquidationsV2.BeginBlocker" "LiquidateVaults" true 1 = true ∧     -- one vault liquidation (gen 2)
-    hasUnit "liquidationsV2.BeginBlocker" "LiquidateBorrows" true 1 = true ∧    -- one borrow liquidation (gen 2; D6 repaired)
-    hasUnit "auction.BeginBlocker" "BeginBlocker" true 1 = true ∧               -- surplus / debt activator per collector mapping
-    hasUnit "auction.BeginBlocker" "RestartDutchAuctions" true 1 = true ∧       -- one auction update (gen 1, vault auctions)
-    hasUnit "auction.BeginBlocker" "RestartDutchLendAuctions" true 1 = true ∧   -- one auction update (gen 1, lend auctions)
-    hasUnit "auctionsV2.BeginBlocker" "AuctionIterator" true 2 = true ∧         -- one auction update (gen 2), nested in the pass
-    hasUnit "auctionsV2.BeginBlocker" "LimitOrderBid" true 2 = true ∧           -- one auction's limit-bid fill, nested in the pass
-    hasUnit "liquidity.BeginBlocker" "BeginBlocker" true 1 = true ∧             -- one app's request clean-up
-    hasUnit "liquidity.EndBlocker" "EndBlocker" true 1 = true ∧                 -- one app's batch execution
-    hasUnit "rewards.BeginBlocker" "BeginBlocker" false 1 = true ∧              -- the incentive hook as a whole
-    hasUnit "esm.BeginBlocker" "BeginBlocker" false 1 = true ∧                  -- the emergency-shutdown hook as a whole
-    hasUnit "lend.BeginBlocker" "BeginBlocker" false 1 = true := by decide
+    perItemUnit "liquidation.BeginBlocker" "LiquidateVaults" "range newVaults" 1 [] = true ∧       -- one vault liquidation (gen 1)
+    perItemUnit "liquidation.BeginBlocker" "LiquidateBorrows" "range newBorrowIDs" 1 ["range pool.AssetData"] = true ∧ -- one borrow liquidation (gen 1)
+    perItemUnit "liquidationsV2.BeginBlocker" "LiquidateVaults" "range newVaults" 1 [] = true ∧    -- one vault liquidation (gen 2)
+    perItemUnit "liquidationsV2.BeginBlocker" "LiquidateBorrows" "range newBorrowIDs" 1 [] = true ∧ -- one borrow liquidation (gen 2; D6 repaired)
+    perItemUnit "auction.BeginBlocker" "BeginBlocker" "range auctionMapData" 1 [] = true ∧         -- surplus / debt activator per collector mapping
+    perItemUnit "auction.BeginBlocker" "RestartDutchAuctions" "range dutchAuctions" 1 [] = true ∧  -- one auction update (gen 1, vault auctions)
+    perItemUnit "auction.BeginBlocker" "RestartDutchLendAuctions" "range dutchAuctions" 1 [] = true ∧ -- one auction update (gen 1, lend auctions)
+    perItemUnit "auctionsV2.BeginBlocker" "AuctionIterator" "range auctions" 2 [] = true ∧         -- one auction update (gen 2), nested in the pass
+    perItemUnit "auctionsV2.BeginBlocker" "LimitOrderBid" "range auctions" 2 ["range biddingData"] = true ∧ -- one auction's limit-bid fill (its bids: inner loop)
+    perItemUnit "liquidity.BeginBlocker" "BeginBlocker" "range allApps" 1 [] = true ∧              -- one app's request clean-up
+    perItemUnit "liquidity.EndBlocker" "EndBlocker" "range allApps" 1 [] = true ∧                  -- one app's batch execution
+    wholeHookUnit "rewards.BeginBlocker" [] = true ∧                                               -- the incentive hook as a whole
+    wholeHookUnit "esm.BeginBlocker" ["range apps"] = true ∧                                       -- the emergency-shutdown hook as a whole (all apps)
+    wholeHookUnit "lend.BeginBlocker" [] = true := by decide
+
+/-- **All wrapper sites with their loops**: for each of the 17 `ApplyFuncIfNoError` calls reached from a blocker — function,
+nesting depth, the innermost loop statement enclosing the call (`""` = none: a whole-hook unit or a pass) and the loops
+written inside its closure. A wrapper moved out of (or into) a loop, or a loop over items moved into a closure, changes
+this list. -/
+def wrapperSites (repairedKickoff : Bool) : List (String × String × Nat × String × List String) :=
+      [("liquidity.BeginBlocker", "BeginBlocker", 1, "range allApps", []),
+       ("liquidity.EndBlocker", "EndBlocker", 1, "range allApps", []),
+       ("liquidation.BeginBlocker", "LiquidateVaults", 1, "range newVaults", []),
+       ("liquidation.BeginBlocker", "LiquidateBorrows", 1, "range newBorrowIDs", ["range pool.AssetData"]),
+       ("liquidationsV2.BeginBlocker", "LiquidateVaults", 1, "range newVaults", []),
+       ("liquidationsV2.BeginBlocker", "LiquidateBorrows", 1, "range newBorrowIDs", [])] ++
+      -- the repair of D-C15-1 (notes/C15.md): one more site, the surplus / debt kick-off per auction-mapping entry
+      (if repairedKickoff then [("liquidationsV2.BeginBlocker", "LiquidateForSurplusAndDebt", 1, "range auctionMapData", [])] else []) ++
+      [("auction.BeginBlocker", "BeginBlocker", 1, "range auctionMapData", []),
+       ("auction.BeginBlocker", "BeginBlocker", 1, "range auctionMapData", []),
+       ("auction.BeginBlocker", "RestartDutchAuctions", 1, "range dutchAuctions", []),
+       ("auction.BeginBlocker", "RestartDutchLendAuctions", 1, "range dutchAuctions", []),
+       ("auctionsV2.BeginBlocker", "BeginBlocker", 1, "", []),
+       ("auctionsV2.BeginBlocker", "AuctionIterator", 2, "range auctions", []),
+       ("auctionsV2.BeginBlocker", "BeginBlocker", 1, "", []),
+       ("auctionsV2.BeginBlocker", "LimitOrderBid", 2, "range auctions", ["range biddingData"]),
+       ("rewards.BeginBlocker", "BeginBlocker", 1, "", []),
+       ("lend.BeginBlocker", "BeginBlocker", 1, "", []),
+       ("esm.BeginBlocker", "BeginBlocker", 1, "", ["range apps"])]
+
+def siteList : List (String × String × Nat × String × List String) :=
+  units.map fun u => (u.blocker, u.inFn, u.nest, u.loopOver, u.innerLoops)
+
+theorem wrapper_sites_and_their_loops : (siteList == wrapperSites false || siteList == wrapperSites true) = true := by decide
 
 /-! ### Error propagation inside the wrapped units (`errorSites`)
 
@@ -550,11 +736,12 @@ theorem d3_only_in_the_vault_sweeps :
     (unwrapped.filter fun e => conditionalD3.contains (key e)).length ≤ 2 := by decide
 
 set_option maxRecDepth 200000 in
-/-- **Pins**: exactly the twelve Begin/EndBlockers of the ten DeFi modules and exactly the seventeen wrapper sites;
+/-- **Pins**: exactly the twelve Begin/EndBlockers of the ten DeFi modules and exactly the seventeen wrapper sites (eighteen
+with the repair of D-C15-1, see `wrapper_sites_and_their_loops`);
 195 unwrapped + 205 wrapped entries on the pinned tree — stated as lower bounds because a repair of D3 legitimately
 removes two of them — and spot entries, so that an extractor that returns little or nothing fails here. -/
 theorem table_pins :
-    blockers.length = 12 ∧ units.length = 17 ∧ unwrapped.length ≥ 150 ∧ wrappedEntries.length ≥ 150 ∧
+    blockers.length = 12 ∧ (units.length = 17 ∨ units.length = 18) ∧ unwrapped.length ≥ 150 ∧ wrappedEntries.length ≥ 150 ∧
     entries.length ≥ 380 ∧ errorSites.length ≥ 120 ∧
     (sliceFacts.map fun f => (f.blocker, f.inFn, f.expr, f.listSrc)) =
       [("liquidation.BeginBlocker", "LiquidateVaults", "totalVaults[start:end]", "k.vault.GetVaults"),
